@@ -317,6 +317,7 @@ UNITS['backend_small_c12'] = dict(
         'c12_add_and_drop': dict(props=['C12', 'C14', 'C10'], kind='bounded', bound=_SMALL),
         'c12_retry_raw_small': dict(props=['C12'], kind='bounded', bound=_SMALL, panic_map=[(r'Init called multiple times', 'C12.RETRY')]),
         'c12_ctor_clean': dict(props=['C12'], kind='bounded', bound=_SMALL),
+        'c12_handle_outlives': dict(props=['C12'], kind='bounded', bound=_SMALL),
     })
 FB = 'backend.rs: '
 obl('C09.SETUP', FB + 'PendingSignals::add_signal', 'accepted signal + registry Ok => Ok')
